@@ -107,6 +107,15 @@ pub fn tls_fix() -> &'static TlsFix {
 pub struct Obs {
     /// time of each accepted connection attempt (ms since start), and when its failure was made visible to the client
     pub attempts: Vec<(u64, Attempt, Option<u64>)>,
+    /// datagrams that reached the fake server through the tunnel and were sent back by it: (payload number, ms since start)
+    pub dgram_echoed: Vec<(u16, u64)>,
+}
+
+struct AbortOnDrop(tokio::task::JoinHandle<()>);
+impl Drop for AbortOnDrop {
+    fn drop(&mut self) {
+        self.0.abort();
+    }
 }
 
 async fn serve_mux(ws: tokio_tungstenite::WebSocketStream<DynStream>, how: Attempt, obs: Arc<Mutex<Obs>>, idx: usize, t0: Instant) {
@@ -132,12 +141,27 @@ async fn serve_mux(ws: tokio_tungstenite::WebSocketStream<DynStream>, how: Attem
             });
         }
     });
+    // every datagram that arrives through the tunnel is sent straight back (same flow id, host and port: the target's reply)
+    let (m3, obs3) = (mux.clone(), obs.clone());
+    let dg_echo = tokio::spawn(async move {
+        while let Ok(d) = m3.get_datagram().await {
+            if d.data.len() == 2 {
+                obs3.lock().unwrap().dgram_echoed.push((u16::from_be_bytes([d.data[0], d.data[1]]), t0.elapsed().as_millis() as u64));
+            }
+            if m3.send_datagram(d).await.is_err() {
+                break;
+            }
+        }
+    });
     match how {
         Attempt::ServeThenClose(d) => {
             tokio::time::sleep(Duration::from_millis(d as u64)).await;
             obs.lock().unwrap().attempts[idx].2 = Some(t0.elapsed().as_millis() as u64);
             acceptor.abort();
             let _ = acceptor.await;
+            // (the echo task holds a reference to the multiplexor too: it has to go first)
+            dg_echo.abort();
+            let _ = dg_echo.await;
             drop(mux); // orderly: queued frames are flushed and a Close is sent
             while js.join_next().await.is_some() {}
         }
@@ -147,10 +171,12 @@ async fn serve_mux(ws: tokio_tungstenite::WebSocketStream<DynStream>, how: Attem
             // abrupt: the connection task (which owns the socket) is killed, no Close frame
             js.abort_all();
             acceptor.abort();
+            dg_echo.abort();
             while js.join_next().await.is_some() {}
         }
         _ => {
             // healthy: until the case is over (the task is aborted with the server)
+            let _dg_guard = AbortOnDrop(dg_echo);
             while js.join_next().await.is_some() {}
         }
     }
@@ -250,6 +276,9 @@ pub struct RunOut {
     pub local_connect_failures: u32,
     /// the additional local connections: (kind, opened at ms, result)
     pub extra: Vec<(u8, u64, Result<u64, String>)>,
+    /// when the datagram burst had been sent (ms), and the payload numbers of the replies that came back on the sending socket
+    pub udp_sent_at: u64,
+    pub udp_replies: Vec<u16>,
     pub wall_ms: u64,
 }
 
@@ -441,9 +470,11 @@ pub async fn run_client_case(c: &ClientCase) -> Result<RunOut, String> {
         (t0.elapsed().as_millis() as u64, match r { Ok(()) => "Ok".to_string(), Err(e) => format!("{e:?}") })
     });
     // datagrams into the UDP remote as soon as the first attempt has been seen
+    let udp_got: Arc<Mutex<(u64, Vec<u16>)>> = Arc::new(Mutex::new((0, vec![])));
+    let mut udp_task = None;
     if c.udp_burst > 0 {
-        let (obs3, n) = (obs.clone(), c.udp_burst);
-        tokio::spawn(async move {
+        let (obs3, n, udp_got2) = (obs.clone(), c.udp_burst, udp_got.clone());
+        udp_task = Some(tokio::spawn(async move {
             loop {
                 if !obs3.lock().unwrap().attempts.is_empty() {
                     break;
@@ -461,7 +492,17 @@ pub async fn run_client_case(c: &ClientCase) -> Result<RunOut, String> {
                     tokio::time::sleep(Duration::from_millis(1)).await;
                 }
             }
-        });
+            udp_got2.lock().unwrap().0 = t0.elapsed().as_millis() as u64;
+            // the replies: whatever the far end sends back for these datagrams must arrive on this very socket
+            let mut buf = [0u8; 64];
+            loop {
+                match sock.recv_from(&mut buf).await {
+                    Ok((2, _)) => udp_got2.lock().unwrap().1.push(u16::from_be_bytes([buf[0], buf[1]])),
+                    Ok(_) => {}
+                    Err(_) => tokio::time::sleep(Duration::from_millis(5)).await,
+                }
+            }
+        }));
     }
     // local connection
     let want_local = c.local_after_attempt;
@@ -552,6 +593,11 @@ pub async fn run_client_case(c: &ClientCase) -> Result<RunOut, String> {
         tokio::time::sleep(Duration::from_millis(10)).await;
     }
     let local_res = if local.is_finished() { local.await.ok() } else { local.abort(); Some((Some((0, Err("local connection still waiting at the end of the case".to_string()))), 0)) };
+    if let Some(t) = udp_task {
+        // (replies that were sent back less than a second ago are not demanded)
+        t.abort();
+    }
+    let udp = udp_got.lock().unwrap().clone();
     let mut extra_res = vec![];
     for (kind, h) in extras {
         if h.is_finished() {
@@ -573,7 +619,7 @@ pub async fn run_client_case(c: &ClientCase) -> Result<RunOut, String> {
         Some((l, f)) => (l, f),
         None => (None, 0),
     };
-    Ok(RunOut { obs: o, client_end, local: if want_local.is_some() { local } else { None }, local_connect_failures: lf, extra: extra_res, wall_ms: t0.elapsed().as_millis() as u64 })
+    Ok(RunOut { obs: o, client_end, local: if want_local.is_some() { local } else { None }, local_connect_failures: lf, extra: extra_res, udp_sent_at: udp.0, udp_replies: udp.1, wall_ms: t0.elapsed().as_millis() as u64 })
 }
 
 /// Verdict on one run. Err((sig, msg, needs_confirmation))
@@ -690,6 +736,24 @@ pub fn judge(c: &ClientCase, r: &RunOut) -> Result<Vec<&'static str>, (String, S
     } else if !all_fail {
         if let Some((t, e)) = &r.client_end {
             return Err(("c19-client-exited".into(), format!("the client ended at {t} ms with {e} although a retryable situation was scripted"), false));
+        }
+    }
+    // replies to datagrams: a datagram that the client accepted on its UDP listener - while the tunnel was up or down - and that it
+    // forwarded when a connection came up reached the far end, whose reply must be delivered to the socket that sent the datagram
+    // (the client forgets an idle UDP client after about 10 s: replies that late, and replies sent back in the last second of the
+    // case, are not demanded)
+    if c.udp_burst > 0 && r.udp_sent_at > 0 {
+        let due: Vec<u16> = r.obs.dgram_echoed.iter().filter(|(_, t)| *t < r.udp_sent_at + 7000 && *t + 1000 < r.wall_ms).map(|x| x.0).collect();
+        let missing: Vec<u16> = due.iter().copied().filter(|k| !r.udp_replies.contains(k)).collect();
+        if !due.is_empty() {
+            cl.push("udp-replies-demanded");
+            if missing.len() * 10 > due.len() {
+                return Err((
+                    "c19-udp-reply-lost".into(),
+                    format!("{} datagrams sent to the client's UDP listener at ~{} ms were forwarded through the tunnel and answered by the far end (first at {} ms), but {} of the replies never reached the socket that had sent them (first missing: {:?}); attempts at {:?}", due.len(), r.udp_sent_at, r.obs.dgram_echoed.first().map(|x| x.1).unwrap_or(0), missing.len(), &missing[..missing.len().min(5)], at.iter().map(|x| (x.0, x.1)).collect::<Vec<_>>()),
+                    true,
+                ));
+            }
         }
     }
     // the local connection
@@ -874,7 +938,7 @@ pub fn run(ctx: &Ctx, rep: &mut Report) {
     rep.rule = "G1: Backoff::new(initial,max,mult,max_count) over all small tuples (initial,max in 0..6 units, mult 0..3, max_count 0..4) x all advance/reset sequences of length <= 8 (exhaustive) + random larger, against the closed form min(initial*mult^k, max). \
                 G2: the real client (client_main_inner, Unix-socket TCP remote) against a scripted fake server on loopback: per connection attempt {accept and drop, accept and stall the upgrade, 403, serve then orderly Close after d ms, serve then abrupt drop after d ms, handshake then silence, handshake then silence then drop after d ms, healthy}, max_retry_count 0..7, max_retry_interval 200..1000 ms (1600/3200 in the directed reset-after-success family), \
                 handshake/channel timeout 1 s, a local connection opened at a generated moment (in a third of the cases together with 1-4 further local connections through the client's other listeners: a TCP remote, the SOCKS5 listener, the HTTP CONNECT listener, the Unix-socket remote again - each must complete its own proxy handshake and be echoed through the next successful connection), 0/10/70/300 datagrams sent into the client's UDP remote right after the first attempt (while disconnected when the script starts with a failure). Oracle: gap between a visible failure and the next attempt >= the reference delay (hard) and <= delay + 0.3 s (confirmed by re-run), shortest delay again after any success, a new attempt after orderly Close / drop / stall, exactly max_retry_count+1 attempts then MaxRetryCountReached (never for 0), immediate end on the non-retryable answer, \
-                the local connection is echoed through the next successful connection. Non-trivial = a script with >= 2 failures and a success, or a local connection made while disconnected. Distinct = distinct case value."
+                the local connection is echoed through the next successful connection; the fake server sends every datagram it receives straight back, and the reply to a datagram that the client took in while the tunnel was down and forwarded later must reach the socket that sent it (not demanded after 7 s - the client forgets idle UDP clients - nor in the last second of a case; 10 % loss tolerated). Non-trivial = a script with >= 2 failures and a success, or a local connection made while disconnected. Distinct = distinct case value."
         .into();
     rep.assumptions = vec![
         "real sockets and the real tokio scheduler: interleavings and timing are sampled; lower bounds on delays are hard, upper bounds and 'never arrives' verdicts are reported only if an isolated re-run of the same case shows them again (otherwise the case counts as inconclusive)".into(),
